@@ -49,6 +49,10 @@ def check_next(ctx, idx):
         impl = {"step": int(st.step), "episode_return": float(st.episode_return),
                 "episode_length": int(st.episode_length), "episode_done": bool(st.episode_done),
                 "average_return": float(st.average_return), "average_length": float(st.average_length)}
+        if impl["step"] < 0 or impl["episode_length"] < 0:
+            ctx.phi_fail("step_counts_every_environment_step", {"kind": "next-history", "alpha": alpha, "n": n, "impl": impl},
+                         key="log:negative-counter")
+            continue
         m = ctx.drv.call("log_run", alpha=alpha, rewards=np.asarray(rs, np.float64), dones=ds, impl=impl,
                          tol=ctx.tol(float(n)))
         case = {"kind": "next-history", "alpha": alpha, "n": n, "vmapped": E > 1,
